@@ -444,7 +444,7 @@ func checkC06(c *core.Ctx, r *core.Report) {
 						}
 						if len(x.Instrs) > 0 {
 							if ret, ok := x.Instrs[len(x.Instrs)-1].(*ssa.Return); ok && pd.mustFalse {
-								if k, ok := ret.Results[0].(*ssa.Const); !ok || k.Value == nil || k.Value.String() != "false" {
+								if k, ok := core.RetResult(ret, 0).(*ssa.Const); !ok || k.Value == nil || k.Value.String() != "false" {
 									wrongRet = ret
 								}
 							}
@@ -474,8 +474,8 @@ func checkC06(c *core.Ctx, r *core.Report) {
 		// the answer `can split` needs an order-insensitive command in the cloned part
 		ign := method(dpT, "IgnoresInputOrder")
 		for _, ret := range core.Returns(cps) {
-			if _, isConst := ret.Results[0].(*ssa.Const); isConst {
-				if k := ret.Results[0].(*ssa.Const); k.Value != nil && k.Value.String() == "true" {
+			if _, isConst := core.RetResult(ret, 0).(*ssa.Const); isConst {
+				if k := core.RetResult(ret, 0).(*ssa.Const); k.Value != nil && k.Value.String() == "true" {
 					r.Violation("GUARD", shortFn(cps)+":split-needs-an-order-insensitive-command", c.Pos(ret.Pos()), "CanParallelSearch answers `can split` unconditionally")
 				}
 				continue
